@@ -210,6 +210,11 @@ theorem ext_queueMaxStreamId {s s' : State} {b : Bool} (h : s.queueMaxStreamId =
     rw [← h.1]
     exact Ext.same rfl rfl rfl rfl rfl
 
+theorem ext_queueMaxIf {s s' : State} {c : Bool} (h : s.queueMaxIf c = some s') : Ext s s' := by
+  rcases queueMaxIf_cases h with rfl | ⟨b, hq⟩
+  · exact Ext.same rfl rfl rfl rfl rfl
+  · exact ext_queueMaxStreamId hq
+
 /-! ### sender-side operations -/
 
 /-- `s'` is reached through `getOrInsertSend` and updates that keep scalars and keys -/
@@ -621,12 +626,14 @@ theorem ext_stop {s s' : State} {id code : Nat} {b : Bool} (h : s.stop id code =
   all_goals
     try (have hg := ext_getOrInsertRecv ‹State.getOrInsertRecv _ _ = some _›)
     try (have f := ext_freeRecvIf ‹State.freeRecvIf _ _ _ = some _›)
+    try (have fq := ext_queueMaxIf ‹State.queueMaxIf _ _ = some _›)
     try (have c := ext_creditAndQueue ‹State.creditAndQueue _ _ = some _›)
     obtain ⟨rfl, _⟩ := h
     first
       | exact Ext.refl _
       | exact hg
       | (refine Ext.trans ?_ c
+         refine Ext.trans ?_ fq
          refine Ext.trans ?_ f
          refine Ext.trans ?_ (ext_queueStopSending _ _ _ _)
          exact Ext.trans hg (Ext.same rfl rfl rfl rfl rfl))
